@@ -20,7 +20,8 @@
    excluded; annotations and voice names hold no quote; setting values and region ids are ASCII without spaces. *)
 From Coq Require Import List ZArith NArith Permutation.
 From Astisub Require Import Kit.Base Kit.Str Kit.Scan Model.Dur Model.Vtt Proofs.VttIOProofs Proofs.VttBase Proofs.VttLine Proofs.VttSimple Proofs.VttDoc Proofs.EolProofs.
-From Astisub Require Import Proofs.VttReadTime Proofs.VttReadLine Proofs.VttReadDoc Proofs.VttReadDec.
+From Astisub Require Import Proofs.VttReadTime Proofs.VttReadLine Proofs.VttReadDoc Proofs.VttReadDec Proofs.VttNeeds Proofs.VttDomain Proofs.VttWriteRender.
+From Astisub Require Import Kit.Chk Model.VttC Proofs.VttChk.
 From Coq Require Strings.String.
 Import Strings.String.StringSyntax.
 Delimit Scope string_scope with string.
@@ -73,11 +74,68 @@ Theorem C02_read_regions_defined : forall data d, read_vtt data = Ok d ->
 Proof. exact read_vtt_regions_defined. Qed.
 Print Assumptions C02_read_regions_defined.
 
-(* what the writer writes lies inside the domain on which the markup tokenizer model is declared faithful *)
-Theorem C02_written_line_in_faithful_domain : forall l, repr_vline l = true -> line_html_ok l = true ->
+(* FAITHFUL DOMAIN.  The cue-text parser is modelled over a model of the golang.org/x/net/html tokenizer that is faithful
+   to the real one only on [vtt_line_simple] lines (Kit/Html.v [html_simple], Model/Vtt.v): no raw-text element (script,
+   style, title, textarea, xmp, iframe, noembed, noframes, noscript, plaintext -- after such a start tag the real
+   tokenizer reads up to the matching end tag, for plaintext to the end of the line, as ONE text token), no comment /
+   declaration token, no '&' or CR inside an attribute value, no NUL, every start tag of the plain shape.  A theorem
+   about a line outside that domain would be a statement about the model only, so the representability predicates
+   contain the domain: [rtag_ok] (Proofs/VttLine.v) demands that the element name a tag is written with (name and dotted
+   classes, lower-cased) is not a raw-text element, that its annotation holds no '&' and no CR, and that name, classes
+   and annotation hold no NUL; [run_ok] that the text holds no NUL; [voice_ok] the same of the voice name.  Hence
+   [repr_vline] ALONE -- the hypothesis of C02_line_roundtrip, and through [text_line_ok] of C02_write_read
+   ([repr_vdoc]) and C02_read_rendered ([rendering_okb] / [gcue_ok]) -- puts what the writer writes inside the domain: *)
+Theorem C02_written_line_in_faithful_domain : forall l, repr_vline l = true ->
   vtt_line_simple (removelast (vline_bytes l)) = true.
 Proof. exact written_line_simple. Qed.
 Print Assumptions C02_written_line_in_faithful_domain.
+(* every cue-text line of a representable document (the lines C02_write_read writes and reads back) ... *)
+Theorem C02_written_text_in_faithful_domain : forall d so ro, repr_vdoc d so ro ->
+  Forall (fun it => forallb vtt_line_simple (text_lines (vi_lines it)) = true) (vd_items d).
+Proof. exact repr_vdoc_text_simple. Qed.
+Print Assumptions C02_written_text_in_faithful_domain.
+(* ... and every cue-text line of a rendering accepted by the side condition of C02_read_rendered *)
+Theorem C02_rendered_text_in_faithful_domain : forall h g cues eof, rendering_okb h g cues eof = true ->
+  Forall (fun p => forallb vtt_line_simple (text_lines (gc_lines (snd p))) = true) cues.
+Proof. exact rendered_text_simple. Qed.
+Print Assumptions C02_rendered_text_in_faithful_domain.
+(* the condition is needed (the audit witness): the line with the runs [<title>]x and y is written "<title>x</title>y",
+   which is outside the domain; the strengthened [repr_vline] rejects it.  The same for every raw-text element name in
+   either case; an ordinary name, and a raw-text name that carries a class ("title.k" is another element for the
+   tokenizer), are accepted.  Where model and library really differ (replayed on the library): for <plaintext>x</plaintext>y
+   the library returns ONE run "x</plaintext>y", for <title>x<b>z</b></title>y the runs "x<b>z</b>" and "y"; the model
+   reads the runs x, y resp. x, z, y *)
+Example C02_needs_no_raw_text_tag :
+  repr_vline (ln_raw (b "title")) = false /\
+  removelast (vline_bytes (ln_raw (b "title"))) = b "<title>x</title>y" /\
+  vtt_line_simple (removelast (vline_bytes (ln_raw (b "title")))) = false.
+Proof. exact needs_no_raw_text_tag. Qed.
+Example C02_needs_no_raw_text_tag_all :
+  forallb (fun n => andb (negb (repr_vline (ln_raw n))) (negb (vtt_line_simple (removelast (vline_bytes (ln_raw n)))))) (b "TITLE" :: b "Script" :: Kit.Html.raw_text_tags) = true /\
+  repr_vline (ln_raw (b "b")) = true /\
+  repr_vline (mkVline [mkVrun (b "x") (Some [mkVtag (b "title") [] [b "k"]]) 0%Z None; plain_run (b "y")] []) = true.
+Proof. exact needs_no_raw_text_tag_all. Qed.
+Example C02_needs_no_raw_text_tag_model_reads :
+  repr_vline (ln_raw (b "plaintext")) = false /\
+  removelast (vline_bytes (ln_raw (b "plaintext"))) = b "<plaintext>x</plaintext>y" /\
+  map vr_text (vl_runs (fst (parse_text_vtt (b "<plaintext>x</plaintext>y") []))) = [b "x"; b "y"] /\
+  repr_vline ln_raw_nested = false /\
+  removelast (vline_bytes ln_raw_nested) = b "<title>x<b>z</b></title>y" /\
+  map vr_text (vl_runs (fst (parse_text_vtt (b "<title>x<b>z</b></title>y") []))) = [b "x"; b "z"; b "y"].
+Proof. exact needs_no_raw_text_tag_model_reads. Qed.
+(* likewise '&' inside an attribute value of an annotation / voice name, and a NUL byte *)
+Example C02_needs_annot_no_amp :
+  repr_vline (mkVline [plain_run (b "x")] (b "A=B&C")) = false /\
+  vtt_line_simple (removelast (vline_bytes (mkVline [plain_run (b "x")] (b "A=B&C")))) = false /\
+  repr_vline (mkVline [mkVrun (b "x") (Some [mkVtag (b "lang") (b "k=a&b") []]) 0%Z None] []) = false /\
+  vtt_line_simple (removelast (vline_bytes (mkVline [mkVrun (b "x") (Some [mkVtag (b "lang") (b "k=a&b") []]) 0%Z None] []))) = false.
+Proof. exact needs_annot_no_amp. Qed.
+Example C02_needs_no_nul :
+  repr_vline (mkVline [plain_run [120; 0; 121]%N] []) = false /\
+  vtt_line_simple (removelast (vline_bytes (mkVline [plain_run [120; 0; 121]%N] []))) = false /\
+  repr_vline (mkVline [mkVrun (b "x") (Some [mkVtag [99; 0]%N [] []]) 0%Z None] []) = false /\
+  vtt_line_simple (removelast (vline_bytes (mkVline [mkVrun (b "x") (Some [mkVtag [99; 0]%N [] []]) 0%Z None] []))) = false.
+Proof. exact needs_no_nul. Qed.
 
 (* LF, CR LF and lone CR denote the same document *)
 Theorem C02_eol : forall e (ls : list str), eol_ok e -> Forall brkfree ls ->
@@ -175,3 +233,105 @@ Print Assumptions C02_timestamp_spellings.
 Print Assumptions C02_read_rendered_lines.
 Print Assumptions C02_read_rendered.
 Print Assumptions C02_read_rendered_example.
+
+(* ---- the writing half, without the reader (Proofs/VttWriteRender.v) ----
+   What the writer produces is stated by a rendering, in the sense of the reading half: the canonical rendering of d with
+   key orders so, ro is render_vtt (w_hrend d so ro) (w_gdoc d so ro) (w_cues d) [] -- no byte-order mark, nothing after
+   WEBVTT, one empty line after the header, after the STYLE block, after the region definitions and between cues, each
+   cue with its number (from 1) as identifier, hh:mm:ss.ttt timestamps (hour field wider when needed), one space on either
+   side of the arrow and before each setting, the settings in the writer's order, a NOTE block ended by one empty line,
+   every line ended by LF, nothing after the last cue's text.
+   C02_write_is_rendering: the writer's bytes ARE that rendering (structural: the document has a cue, region keys are
+   the region identifiers, no time is negative -- needed, C02_write_is_rendering_needs_nonneg).
+   C02_write_denotes: that rendering denotes ndoc d so ro (denote_vtt; the reader does not occur in the statement).
+   C02_write_rendering_ok: for a representable document the rendering satisfies the side conditions of the reading half's
+   theorem C02_read_rendered_lines (also when a cue refers to the region with the EMPTY identifier, written region: with
+   nothing after the colon: C02_write_rendering_empty_region_id).
+   C02_write_read_via_rendering: hence write -> read re-derived from the rendering theorem and the reading half alone
+   (C02_write_read is not used). *)
+Theorem C02_write_is_rendering : forall d so ro, vd_items d <> [] -> regions_keyed d ro -> times_nonneg d ->
+  write_vtt d so ro = Ok (render_eol [10%N] (render_vtt (w_hrend d so ro) (w_gdoc d so ro) (w_cues d) [])).
+Proof. exact write_is_rendering. Qed.
+Print Assumptions C02_write_is_rendering.
+Theorem C02_write_is_rendering_repr : forall d so ro, repr_vdoc d so ro ->
+  write_vtt d so ro = Ok (render_eol [10%N] (render_vtt (w_hrend d so ro) (w_gdoc d so ro) (w_cues d) [])).
+Proof. exact write_is_rendering_repr. Qed.
+Print Assumptions C02_write_is_rendering_repr.
+Theorem C02_write_denotes : forall d so ro, repr_vdoc d so ro -> denote_vtt (w_gdoc d so ro) (w_cues d) = ndoc d so ro.
+Proof. exact write_denotes. Qed.
+Print Assumptions C02_write_denotes.
+Theorem C02_write_denotes_count : forall d so ro, (Z.of_nat (length (vd_items d)) <= max_int64)%Z ->
+  denote_vtt (w_gdoc d so ro) (w_cues d) = ndoc d so ro.
+Proof. exact write_denotes_count. Qed.
+Print Assumptions C02_write_denotes_count.
+Theorem C02_write_rendering_ok : forall d so ro, repr_vdoc d so ro ->
+  hrend_ok (w_hrend d so ro) (w_gdoc d so ro) /\ gdoc_ok (w_gdoc d so ro) /\
+  Forall (fun p => gcue_ok (denote_regions (w_gdoc d so ro)) (snd p) /\ crend_ok (fst p) (snd p)) (w_cues d) /\
+  Forall (fun p => cr_before (fst p) <> []) (tl (w_cues d)) /\ Forall blank (@nil str).
+Proof. exact write_rendering_ok. Qed.
+Print Assumptions C02_write_rendering_ok.
+Theorem C02_write_read_via_rendering : forall d so ro, repr_vdoc d so ro ->
+  exists data, write_vtt d so ro = Ok data /\
+    data = render_eol [10%N] (render_vtt (w_hrend d so ro) (w_gdoc d so ro) (w_cues d) []) /\
+    read_vtt data = Ok (denote_vtt (w_gdoc d so ro) (w_cues d)) /\
+    denote_vtt (w_gdoc d so ro) (w_cues d) = ndoc d so ro.
+Proof. exact write_read_via_rendering. Qed.
+Print Assumptions C02_write_read_via_rendering.
+(* a rendering given as bytes is read under the general side conditions too (C02_read_rendered has the decidable check) *)
+Theorem C02_read_rendered_bytes_gen : forall e h g cues eof, eol_ok e ->
+  hrend_ok h g -> gdoc_ok g ->
+  Forall (fun p => gcue_ok (denote_regions g) (snd p) /\ crend_ok (fst p) (snd p)) cues ->
+  Forall (fun p => cr_before (fst p) <> []) (tl cues) -> Forall blank eof ->
+  read_vtt (render_eol e (render_vtt h g cues eof)) = Ok (denote_vtt g cues).
+Proof. exact read_rendered_vtt_bytes_gen. Qed.
+Print Assumptions C02_read_rendered_bytes_gen.
+(* the worked instance: the document of C02_example, its canonical rendering line by line, the writer's bytes, the
+   decidable check of the reading half, the denotation *)
+Example C02_write_rendering_example_lines :
+  render_vtt (w_hrend ex_doc ex_so ex_ro) (w_gdoc ex_doc ex_so ex_ro) (w_cues ex_doc) [] =
+  [b "WEBVTT"; b "X-TIMESTAMP-MAP=LOCAL:00:00:05.000,MPEGTS:900000"; [];
+   b "STYLE"; b "::cue {"; b "color: red }"; [];
+   b "Region: id=bill";
+   b "Region: id=fred lines=3 regionanchor=0%,100% scroll=up viewportanchor=10%,90% width=40%"; [];
+   b "NOTE a comment"; b "more"; [];
+   b "1"; b "00:00:01.000 --> 00:00:02.500 align:start line:-1 position:10% region:fred vertical:rl";
+   b "<v Bob><c.red.big>Hello </c><00:00:01.500>world"; b "second"; [];
+   b "2"; b "00:00:03.000 --> 00:00:04.000"; b "second"].
+Proof. exact ex_write_lines. Qed.
+Example C02_write_rendering_example :
+  write_vtt ex_doc ex_so ex_ro =
+    Ok (render_eol [10%N] (render_vtt (w_hrend ex_doc ex_so ex_ro) (w_gdoc ex_doc ex_so ex_ro) (w_cues ex_doc) [])) /\
+  rendering_okb (w_hrend ex_doc ex_so ex_ro) (w_gdoc ex_doc ex_so ex_ro) (w_cues ex_doc) [] = true /\
+  denote_vtt (w_gdoc ex_doc ex_so ex_ro) (w_cues ex_doc) = ndoc ex_doc ex_so ex_ro.
+Proof. exact (conj ex_write_is_rendering (conj ex_write_rendering_okb ex_write_denotes)). Qed.
+(* the side conditions are needed / come from where the comment block says *)
+Example C02_write_is_rendering_needs_nonneg :
+  write_vtt neg_doc [] [] = Ok (b "WEBVTT" ++ [10; 10]%N ++ b "1" ++ [10%N] ++ b "00:00:00.0-1 --> 00:00:01.000" ++ [10%N] ++ b "second" ++ [10%N]) /\
+  render_vtt (w_hrend neg_doc [] []) (w_gdoc neg_doc [] []) (w_cues neg_doc) [] =
+  [b "WEBVTT"; []; b "1"; b "0-1:59:59.999 --> 00:00:01.000"; b "second"].
+Proof. exact write_is_rendering_needs_nonneg. Qed.
+Example C02_write_rendering_empty_region_id :
+  repr_vdoc noid_doc [] [[]] /\
+  render_vtt (w_hrend noid_doc [] [[]]) (w_gdoc noid_doc [] [[]]) (w_cues noid_doc) [] =
+  [b "WEBVTT"; []; b "Region: id="; []; b "1"; b "00:00:00.000 --> 00:00:01.000 region:"; b "second"] /\
+  rendering_okb (w_hrend noid_doc [] [[]]) (w_gdoc noid_doc [] [[]]) (w_cues noid_doc) [] = true.
+Proof. exact (conj noid_doc_repr write_rendering_empty_region_id). Qed.
+
+(* ---- the model the harness runs has explicit panic sites (C08) ----
+   Model/VttC.v transcribes webvtt.go with every index expression, slice expression and pointer dereference as a
+   checked access that yields Panic <line of webvtt.go> when out of range / nil, behind the guard the Go code tests (the
+   table of sites is in notes/C02.md).  It is the function the extracted driver runs against the library; the theorems of
+   this file are stated on the pattern-matching transcription, which computes the same function: *)
+Theorem C02_checked_reader_agrees : forall ls e, read_vtt_lines_c ls e = read_vtt_lines ls e.
+Proof. exact read_vtt_lines_c_ok. Qed.
+Print Assumptions C02_checked_reader_agrees.
+Theorem C02_checked_writer_agrees : forall d so ro, write_vtt_c d so ro = write_vtt d so ro.
+Proof. exact write_vtt_c_ok. Qed.
+Print Assumptions C02_checked_writer_agrees.
+(* no panic site of webvtt.go is reachable (the content: each guard implies its access is in range / non-nil) *)
+Theorem C02_checked_reader_total : forall ls e p, read_vtt_lines_c ls e <> Panic p.
+Proof. exact read_vtt_lines_c_no_panic. Qed.
+Print Assumptions C02_checked_reader_total.
+Theorem C02_checked_writer_total : forall d so ro p, write_vtt_c d so ro <> Panic p.
+Proof. exact write_vtt_c_no_panic. Qed.
+Print Assumptions C02_checked_writer_total.
